@@ -12,22 +12,47 @@ ID = 'C19'
 LEVEL = 'fault_enumeration'
 RULE = ('Payloads from the C12 generator (both write paths: SignatureArray fast path and list/annotated path with one storage call per '
         'signature; small and multi-megabyte; with/without compression; also through `gambit signatures create`-style AnnotatedSignatures). '
-        'For each payload EVERY crash point is enumerated: a forked writer is SIGKILLed immediately before its n-th h5py call (attribute '
+        'For each payload EVERY crash point is enumerated: a forked writer is ended (SIGKILL; or SIGTERM / SIGINT, where Python-level clean-up such as `with` blocks may run) immediately before its n-th h5py call (attribute '
         'set, dataset creation, dataset write, flush, close) for n = 0..count, plus one kill right after close returned (control). Oracle: '
         'load_signatures on the file left behind either raises, or yields exactly the payload (k-mer spec, IDs, metadata, every '
         'signature, dtype); the control must load. In addition (1 generated case in 16 thorough / 40 quick) the same oracle at SYSTEM-CALL granularity: a fresh writer '
         'process under strace is SIGKILLed on entering its n-th write-type system call (pwrite64/write/ftruncate) on the output file, for every n, '
         'which places crashes inside H5Fclose as well. One evaluation = one (payload, crash point) pair; non-trivial = crash after the '
-        'format marker attribute was written and before close returned; distinct by (payload hash, point).')
+        'first attribute was written and before close returned; distinct by (payload hash, point).')
 ASSUMPTIONS = ['library-level crash points are h5py call boundaries, as the property states; crashes between two system calls inside H5Fclose '
                'are covered for a sample of payloads through strace fault injection (ptrace must be permitted in the sandbox)',
-               'process death is modelled by SIGKILL: kernel page cache survives (no power loss)']
+               'process death is modelled by SIGKILL, SIGTERM and SIGINT delivered at call boundaries: the kernel page cache survives (no power loss)']
 DEADLINE_S = {'quick': 240, 'thorough': 2400}
 NPROC = {'quick': 16, 'thorough': 16}
 
 
 def budget(tier):
-	return {'quick': 320, 'thorough': 6000}[tier]
+	return {'quick': 220, 'thorough': 5000}[tier]
+
+
+def _cli_writer(np, case, path, ctx):
+	"""`gambit signatures create` driven through the real click entry point inside the forked child."""
+	from vlib import clihelp as H
+	from gambit.kmers import KmerSpec
+	k, prefix = case['cli_spec']
+	n = case['cli_n']
+	genomes = H.make_genomes(case['cli_seed'], n, nanc=2, plant=tuple({'ATGAC', prefix}), dup_prob=0.0)
+	key = ('c19cli', case['cli_seed'], n)
+	if key not in ctx.cache:
+		d = ctx.fresh_dir('c19cli')
+		ctx.cache[key] = H.write_genomes(d, genomes, [f'genome{i}.fasta' for i in range(n)])
+	files = ctx.cache[key]
+	sigs = H.ref_sigs(genomes, k, prefix)
+	spec = KmerSpec(k, prefix)
+	arrays = [np.array(s_, dtype=spec.index_dtype) for s_ in sigs]
+	p = {'k': k, 'prefix': prefix, 'dtype': None}
+	exp_ids = ('str', [f'genome{i}' for i in range(n)])
+	exp_meta = {'id': None, 'name': None, 'version': None, 'id_attr': None, 'description': None, 'extra': {}}
+
+	def write():
+		from gambit.cli import cli
+		cli.main(['signatures', 'create', '-k', str(k), '-p', prefix, '-o', path, '--no-progress', '-c', '1'] + files, standalone_mode=False)
+	return write, (spec, arrays, exp_ids, exp_meta), p
 
 
 def _writer(np, p, path):
@@ -60,10 +85,12 @@ def _prepare_path(np, path, pre):
 def _check_point(np, p, path, write, expected, n, count, labels, case):
 	from gambit.sigs.base import load_signatures
 	_prepare_path(np, path, case.get('preexisting'))
-	status, info = crash.run_writer(write, n)
+	how = case.get('how', 'sigkill')
+	status, info = crash.run_writer(write, n, how)
 	if status != 'killed':
-		raise HarnessError(f'writer child was not killed at point {n}: {status} {info}')
-	one = {'kind': 'point', 'payload': p, 'point': n, 'preexisting': case.get('preexisting')}
+		raise HarnessError(f'writer child was not killed at point {n} ({how}): {status} {info}')
+	one = dict(case)
+	one.update({'kind': 'point', 'point': n})
 	try:
 		loaded = load_signatures(path)
 	except Exception as e:
@@ -179,9 +206,12 @@ def run_case(case, ctx):
 		c = dict(case)
 		c['kind'] = 'syscall_points'
 		return run_syscall_case(c, ctx)
-	p = case['payload']
 	path = ctx.fresh_path('.gs')
-	write, expected = _writer(np, p, path)
+	if case.get('writer') == 'cli':
+		write, expected, p = _cli_writer(np, case, path, ctx)
+	else:
+		p = case['payload']
+		write, expected = _writer(np, p, path)
 	# dry run: count calls
 	_prepare_path(np, path, case.get('preexisting'))
 	status, info = crash.run_writer(write, None)
@@ -210,8 +240,11 @@ def run_case(case, ctx):
 			loaded += 1
 	if os.path.exists(path):
 		os.unlink(path)
-	big = sum(s[0] for s in p['sigs']) >= 100000
-	classes = ['path=' + ('array' if p['container'].endswith('array') else 'list'), f'compression={p["compression"]}',
+	big = case.get('writer') != 'cli' and sum(s[0] for s in p['sigs']) >= 100000
+	if case.get('writer') == 'cli':
+		p = dict(p, container='list', compression=None)
+	classes = ['death=' + case.get('how', 'sigkill'), 'writer=' + case.get('writer', 'api'),
+	           'path=' + ('array' if p['container'].endswith('array') else 'list'), f'compression={p["compression"]}',
 	           'multi_megabyte' if big else 'small', 'preexisting=' + str(case.get('preexisting')), f'points={"<=16" if count <= 16 else "17-24" if count <= 24 else ">24"}']
 	if loaded > 1:
 		classes.append('loads_before_close_returned')
@@ -223,8 +256,13 @@ def run_case(case, ctx):
 def gen_case(draw, tier):
 	if draw(st.integers(0, 15 if tier == 'thorough' else 39)) == (15 if tier == 'thorough' else 39):
 		return {'kind': 'syscall_points', 'payload': draw(P.payload(max_sigs=8, allow_big=False)), 'max_points': 60 if tier == 'thorough' else 30}
+	how = draw(st.sampled_from(['sigkill', 'sigkill', 'sigint', 'sigterm']))
+	pre = draw(st.sampled_from([None, 'old_sigfile', None, 'junk', 'old_sigfile']))
+	if draw(st.integers(0, 11)) == 11:
+		return {'kind': 'all_points', 'writer': 'cli', 'cli_seed': draw(st.integers(0, 30)), 'cli_n': draw(st.integers(2, 6)),
+		        'cli_spec': list(draw(st.sampled_from([(6, 'AT'), (11, 'ATGAC'), (8, 'TA')]))), 'how': how, 'preexisting': pre}
 	p = draw(P.payload(max_sigs=10, allow_big=True, big_rate=(8 if tier == 'thorough' else 20)))
-	return {'kind': 'all_points', 'payload': p, 'preexisting': draw(st.sampled_from([None, 'old_sigfile', None, 'junk', 'old_sigfile']))}
+	return {'kind': 'all_points', 'payload': p, 'preexisting': pre, 'how': how}
 
 
 def strategy(tier):
